@@ -384,42 +384,120 @@ def map_lookup(it, d, key, default, node, must=False):
         raise Unsupported('map lookup value kind')
     sig = canonical_map_id(seq)
     ksv = key if isinstance(key, SV) else lift(key)
-    lf = uf(f'lookup#{sig}', SORTS[ksv.kind], SORTS[kind])
-    res = SV(kind, lf(ksv.z))
-    alts = []
+    # the looked-up value is a function of the key and of whatever the map itself depends on (outer iteration
+    # variables, inputs): lookup#sig(outer..., key), axiomatised once per map (MAP_AXIOMS):
+    #     forall outer, k:  k in keys  =>  exists entry: key(entry) = k and value(entry) = lookup(outer, k)
+    own = []
+    for binders, _, _, _ in leaves:
+        own.extend(b.var for b in binders)
+    terms = []
     for binders, guard, kv, _ in leaves:
-        body = z_and(*[b.constraint for b in binders], guard, z_bool(val_eq(kv[0], key)),
-                     z_bool(val_eq(kv[1], res)))
-        vs = [b.var for b in binders]
-        alts.append(z3.Exists(vs, body) if vs else body)
-    some = z_or(*alts)
+        terms.extend(b.constraint for b in binders)
+        terms.append(z_bool(guard))
+        for x in kv:
+            if isinstance(x, SV):
+                terms.append(x.z)
+                if x.none is not None:
+                    terms.append(x.none)
+    outer = _outer_of(seq)
+    osorts = [o.sort() for o in outer]
+    lf = uf(f'lookup#{sig}', *osorts, SORTS[ksv.kind], SORTS[kind])
+    res = SV(kind, lf(*outer, ksv.z))
+    optional = any(isinstance(v, SV) and v.none is not None for v in vals) or any(v is None for v in vals)
+    nf = uf(f'lookup#{sig}.isNone', *osorts, SORTS[ksv.kind], z3.BoolSort()) if optional else None
+    if optional:
+        res.none = nf(*outer, ksv.z)
+    if sig not in MAP_AXIOMS:
+        kq = z3.Const('k$map', SORTS[ksv.kind])
+        kqv = SV(ksv.kind, kq)
+        rq = SV(kind, lf(*outer, kq), nf(*outer, kq) if optional else None)
+        ex = []
+        for binders, guard, kv, _ in leaves:
+            body = z_and(*[b.constraint for b in binders], guard, z_bool(val_eq(kv[0], kqv)),
+                         z_bool(val_eq(kv[1], rq)))
+            vs = [b.var for b in binders]
+            ex.append(z3.Exists(vs, body) if vs else body)
+        keyin = seq.contains(lambda kv_: z_bool(val_eq(kv_[0], kqv)))
+        MAP_AXIOMS[sig] = z3.ForAll([kq] + list(outer), z3.Implies(z_bool(keyin), z_or(*ex)),
+                                    patterns=[lf(*outer, kq)])
     if must:
-        it.ctx.assume(some)
         return res
-    dflt_ok = z_bool(val_eq(res, default)) if default is not None else None
     if default is None:
-        res = SV(kind, res.z, z3.Not(inkeys))
-        it.ctx.assume(z3.Implies(inkeys, some))
+        res = SV(kind, res.z, z_or(z3.Not(inkeys), res.none if res.none is not None else False))
         return res
-    it.ctx.assume(z3.If(inkeys, some, dflt_ok))
-    return res
+    return ite(inkeys, res, default)
+
+
+MAP_AXIOMS: dict = {}
+
+
+def map_axioms() -> list:
+    return list(MAP_AXIOMS.values())
+
+
+def _axiom_hook(names: set) -> list:
+    out = []
+    for n in names:
+        if n.startswith('lookup#'):
+            sig = n[len('lookup#'):].split('.')[0]
+            if sig in MAP_AXIOMS:
+                out.append(MAP_AXIOMS[sig])
+        elif n.endswith('.has'):
+            lst = SEQ_AXIOM_LISTS.get(n[:-4])
+            if lst is not None and not lst.parents:
+                from vc.sqlvc.encode import seq_has
+                i = z3.Int('i$has')
+                e = lst.at(i)
+                if isinstance(e, SV):
+                    out.append(z3.ForAll([i], z3.Implies(lst.range_constraint(i), seq_has(lst, e.kind)(e.z)),
+                                         patterns=[e.z]))
+    return out
+
+
+from vc import core as _core
+if _axiom_hook not in _core.AXIOM_HOOKS:
+    _core.AXIOM_HOOKS.append(_axiom_hook)
 
 
 _NNF = z3.Then('nnf', 'simplify')
 _map_registry: list = []
 
 
+def _outer_of(seq):
+    own, terms = [], []
+    for binders, guard, elem, _ in seq.leaves():
+        own.extend(b.var for b in binders)
+        terms.extend(b.constraint for b in binders)
+        terms.append(z_bool(guard))
+        stack = [elem]
+        while stack:
+            x = stack.pop()
+            if isinstance(x, SV):
+                terms.append(x.z)
+                if x.none is not None:
+                    terms.append(x.none)
+            elif isinstance(x, tuple):
+                stack.extend(x)
+    return free_consts(terms, exclude=own)
+
+
 def canonical_map_id(seq) -> str:
-    """Identifier of the map denoted by `seq`: syntactic signature, unified with an earlier map when z3 proves
-    the two families equal (same keys, same values) - equal maps share one lookup function."""
+    """Identifier of the map denoted by `seq` up to renaming of the outer variables it depends on: syntactic
+    signature, unified with an earlier map when z3 proves the two families equal (same keys, same values) - equal
+    maps share one lookup function."""
     from vc.pyvc import famcmp
-    sig = seq_signature(seq)
-    for other, osig in _map_registry:
+    outer = _outer_of(seq)
+    osub = [(o, z3.Const(f'$o{k}', o.sort())) for k, o in enumerate(outer)]
+    nseq = famcmp._subst_seq(seq, osub) if osub else seq
+    sig = seq_signature(nseq)
+    for other, osig, _ in _map_registry:
         if osig == sig:
             return osig
-    for other, osig in _map_registry:
+    for other, osig, on in _map_registry:
+        if on != len(outer):
+            continue
         try:
-            goals = famcmp.seq_goals(seq, other, [])
+            goals = famcmp.seq_goals(nseq, other, [])
         except (famcmp.ShapeMismatch, Unsupported):
             continue
         ok = True
@@ -434,7 +512,7 @@ def canonical_map_id(seq) -> str:
                 break
         if ok:
             return osig
-    _map_registry.append((seq, sig))
+    _map_registry.append((nseq, sig, len(outer)))
     return sig
 
 
@@ -521,6 +599,16 @@ def binop(it, op, a, b, node):
             out.nodes = list(a.nodes)
             it.dict_update(out, b)
             return out
+        if isinstance(a, MDict) and a.is_concrete() and isinstance(b, SRec):
+            out = SRec('dict|')
+            for k, v in a.d.items():
+                out.slots[k] = Slot(True, v)
+            for k, sl in b.slots.items():
+                if k in out.slots and sl.present is not True:
+                    out.slots[k] = Slot(True, ite(z_bool(sl.present), sl.value, out.slots[k].value))
+                else:
+                    out.slots[k] = Slot(sl.present, sl.value)
+            return out
     if isinstance(op, ast.Sub) and isinstance(a, (MSet, SSet)) and isinstance(b, (MSet, SSet, set, frozenset)):
         return set_difference(it, a, b)
     if isinstance(op, ast.BitAnd) and isinstance(a, (MSet, set, frozenset)) and isinstance(b, (MSet, set, frozenset)):
@@ -596,6 +684,14 @@ def arith(it, op, a, b, node):
 
 
 def compare(it, op, a, b, node):
+    if isinstance(a, CountOf) and isinstance(b, int) and not isinstance(b, bool):
+        tw = occurs_twice(it, a.seq, a.x, node)
+        if (isinstance(op, ast.Gt) and b == 1) or (isinstance(op, ast.GtE) and b == 2):
+            return tw
+        if (isinstance(op, ast.LtE) and b == 1) or (isinstance(op, ast.Lt) and b == 2) or \
+                (isinstance(op, ast.Eq) and b == 1):
+            return z_not(tw)
+        raise Unsupported('comparison of a Counter count with a constant other than 1/2')
     if isinstance(op, (ast.Is, ast.IsNot)):
         r = is_identical(a, b)
         if isinstance(op, ast.IsNot):
@@ -787,6 +883,8 @@ def contains(it, container, x, node):
     if isinstance(container, (tuple, list, set, frozenset, dict)) and is_sym(x):
         keys = list(container)
         return z_or(*[z_bool(equals(it, k, x, node)) for k in keys])
+    if isinstance(container, SCounter):
+        return container.seq.contains(lambda e: z_bool(equals(it, e, x, node)))
     if isinstance(container, SqlText) and isinstance(x, str):
         raise Unsupported('substring test on SQL text')
     if isinstance(container, SV) and container.kind == 'zstr':
@@ -1438,6 +1536,61 @@ class SCounter(Sym):
         self.seq = seq
 
 
+def occurs_twice(it, seq, x, node=None):
+    """x occurs at two different positions of the sequence (A-PY-COUNTER: Counter(xs)[x] > 1)."""
+    leaves = list(seq.leaves())
+    alts = []
+    from vc.pyvc import famcmp
+    for i, (b1, g1, e1, _) in enumerate(leaves):
+        for j, (b2, g2, e2, _) in enumerate(leaves):
+            if j < i:
+                continue
+            # fresh copies of both instances' binders (x may itself mention the sequence's binders)
+            s1 = [(b.var, z3.Int(fresh_name(str(b.var).split('!')[0] + '_p'))) for b in b1]
+            s2 = [(b.var, z3.Int(fresh_name(str(b.var).split('!')[0] + '_q'))) for b in b2]
+            c1 = [z3.substitute(b.constraint, *s1) for b in b1] if s1 else []
+            c2 = [z3.substitute(b.constraint, *s2) for b in b2] if s2 else []
+            g1s = z3.substitute(z_bool(g1), *s1) if s1 else z_bool(g1)
+            g2s = z3.substitute(z_bool(g2), *s2) if s2 else z_bool(g2)
+            e1s = famcmp.subst_value(e1, s1)
+            e2s = famcmp.subst_value(e2, s2)
+            body = z_and(*c1, g1s, *c2, g2s, z_bool(equals(it, e1s, x, node)), z_bool(equals(it, e2s, x, node)))
+            if i == j:
+                if not b1:
+                    continue     # a single literal occurs once
+                body = z_and(body, z_or(*[p != q for (_, p), (_, q) in zip(s1, s2)]))
+            vs = [w for _, w in s1] + [w for _, w in s2]
+            alts.append(z3.Exists(vs, body) if vs else body)
+    return z_or(*alts)
+
+
+class CountOf(SV):
+    """Counter(xs)[x]: only `> 1` / `>= 2` / `== 1` style tests against small constants are interpreted."""
+    __slots__ = ('seq', 'x', 'it')
+
+    def __init__(self, it, seq, x):
+        super().__init__('int', z3.Int(fresh_name('count')))
+        self.seq, self.x, self.it = seq, x, it
+
+
+def sc_items(it, c, args, kw, node):
+    def pair(e):
+        cnt = CountOf(it, c.seq, e)
+        it.ctx.assume(cnt.z >= 1)
+        return (e, cnt)
+    # count(e) > 1 <=> e occurs twice: asserted lazily for each generic element when compared (see compare hook)
+    out = map_seq(c.seq, lambda e: (e, CountOf(it, c.seq, e)))
+    return out
+
+
+def sc_elements(it, c, args, kw, node):
+    return c.seq
+
+
+def sc_get(it, c, args, kw, node):
+    raise Unsupported('Counter.get')
+
+
 def b_chain(it, args, kw, node):
     out = MList()
     for a in args:
@@ -1516,6 +1669,8 @@ def rec_get(it, rec, args, kw, node):
         return default
     if isinstance(slot.value, SRec) and default is None:
         return SOptRec(p, slot.value)
+    if isinstance(slot.value, (SList, Seq)) and isinstance(default, MList) and not default.nodes:
+        return GuardedSeq(p, slot.value)        # rec.get(key, []): the list if present, else empty
     try:
         return ite(p, slot.value, default)
     except Unsupported:
@@ -1871,6 +2026,19 @@ for _n in ('strip', 'lower', 'upper', 'rstrip', 'lstrip', 'casefold'):
     METHODS[('str', _n)] = _str_uf_method(_n)
 
 
+@method('meta', 'get')
+def meta_get(it, m, args, kw, node):
+    key = args[0]
+    if is_sym(key):
+        raise Unsupported('metadata key')
+    f = uf('meta_get_' + repr(key), Meta, UStr)
+    p = uf('meta_has_' + repr(key), Meta, z3.BoolSort())
+    none = z3.Not(p(m.z))
+    if m.none is not None:
+        none = z3.Or(m.none, none)
+    return SV('str', f(m.z), none)
+
+
 @method('str', 'split')
 def str_split(it, s, args, kw, node):
     if s.kind == 'zstr':
@@ -2010,3 +2178,8 @@ def concrete_str_method(it, s, name, args, kwargs, node):
     if name in ('startswith', 'endswith', '__contains__', '__eq__'):
         raise Unsupported(f'concrete str.{name} with symbolic argument')
     raise Unsupported(f'str.{name} with symbolic arguments')
+
+
+METHODS[('SCounter', 'items')] = sc_items
+METHODS[('SCounter', 'elements')] = sc_elements
+METHODS[('SCounter', 'get')] = sc_get
